@@ -381,7 +381,7 @@ func probe(url string) (marker string, err error) {
 	k.Add("url", url)
 	k.Add("path", url[strings.Index(url, "/"):])
 	k.Add("query", "")
-	k.Add("headers", "host: h.com")
+	k.Add("headers", "host: h.com\r\n\r\n") // the proxy's req.hdrs dump: CRLF-terminated lines and the closing empty line
 	k.Add("body", []byte(""))
 	msgs := message.Messages{&message.Message{Name: "lunar-on-request", KV: k}}
 	req := &request.Request{Messages: &msgs}
